@@ -598,6 +598,28 @@ impl Database {
             let undo = undo_data.get(i).and_then(|o| o.as_ref());
             self.undo_write_entry(entry, undo, &mut key_buf)?;
         }
+
+        // log what the undo dirtied, as an autocommit statement would (inside a transaction,
+        // i.e. after ROLLBACK TO, this is a no-op: COMMIT logs those pages)
+        let mut table_ids: Vec<u32> = entries.iter().map(|e| e.table_id).collect();
+        table_ids.sort_unstable();
+        table_ids.dedup();
+        for table_id in table_ids {
+            let names = {
+                let catalog_guard = self.shared.catalog.read();
+                catalog_guard.as_ref().and_then(|catalog| {
+                    catalog
+                        .table_with_schema_by_id(table_id as u64)
+                        .map(|(schema, table)| (schema.to_string(), table.name().to_string()))
+                })
+            };
+            if let Some((schema_name, table_name)) = names {
+                let mut file_manager_guard = self.shared.file_manager.write();
+                if let Some(file_manager) = file_manager_guard.as_mut() {
+                    self.flush_wal_if_autocommit(file_manager, &schema_name, &table_name, table_id)?;
+                }
+            }
+        }
         Ok(())
     }
 
@@ -684,22 +706,57 @@ impl Database {
             let page0 = table_storage.page(0)?;
             TableFileHeader::from_bytes(page0)?.root_page()
         };
-        let mut btree = BTree::new(&mut *table_storage, table_root_page)?;
+
+        let old_value: Option<&Vec<u8>> = if entry.is_insert { None } else { undo_data };
+        if !entry.is_insert && old_value.is_none() {
+            return Ok(());
+        }
+
+        // With the WAL on, the pages the undo touches have to reach the log like the pages
+        // of any other write: otherwise the next checkpoint / recovery copies the older
+        // images that are in the log over them.
+        let wal_enabled = self
+            .shared
+            .wal_enabled
+            .load(std::sync::atomic::Ordering::Acquire);
+        // what the statement left under the key: the inserted row, a tombstone (DELETE) or
+        // the row's new version (UPDATE)
+        let mut current: Option<Vec<u8>> = None;
+        let mut deleted = false;
+        let mut new_table_root = table_root_page;
+        crate::database::macros::with_btree_storage!(
+            wal_enabled,
+            &mut *table_storage,
+            &self.shared.dirty_tracker,
+            table_id,
+            table_root_page,
+            |btree: &mut BTree<_>| {
+                current = btree.get(&entry.key)?.map(|v| v.to_vec());
+                deleted = btree.delete(&entry.key)?;
+                if let Some(old_value) = old_value {
+                    btree.insert(&entry.key, old_value)?;
+                }
+                new_table_root = btree.root_page();
+                Ok::<_, eyre::Report>(())
+            }
+        );
+        if new_table_root != table_root_page {
+            // putting the before-image back split the root
+            let page = table_storage.page_mut(0)?;
+            TableFileHeader::from_bytes_mut(page)?.set_root_page(new_table_root);
+        }
+
+        let decode_row = |raw: &[u8]| -> Option<Vec<OwnedValue>> {
+            let user_data = get_user_data(raw);
+            if let Ok(record) = RecordView::new(user_data, &schema) {
+                OwnedValue::extract_row_from_record(&record, &columns).ok()
+            } else {
+                None
+            }
+        };
 
         if entry.is_insert {
-            let row_values: Option<Vec<OwnedValue>> =
-                if let Some(raw_value) = btree.get(&entry.key)? {
-                    let user_data = get_user_data(raw_value);
-                    if let Ok(record) = RecordView::new(user_data, &schema) {
-                        OwnedValue::extract_row_from_record(&record, &columns).ok()
-                    } else {
-                        None
-                    }
-                } else {
-                    None
-                };
-
-            let deleted = btree.delete(&entry.key)?;
+            let row_values: Option<Vec<OwnedValue>> = current.as_deref().and_then(decode_row);
 
             if deleted {
                 let page = table_storage.page_mut(0)?;
@@ -780,22 +837,11 @@ impl Database {
                     }
                 }
             }
-        } else if let Some(old_value) = undo_data {
-            // what the statement left under the key: a tombstone (DELETE) or the row's new
-            // version (UPDATE)
-            let current: Option<Vec<u8>> = btree.get(&entry.key)?.map(|v| v.to_vec());
+        } else if let Some(old_value) = old_value {
             let was_delete = current.as_deref().is_some_and(|v| {
                 v.len() > crate::mvcc::RecordHeader::SIZE
                     && crate::mvcc::RecordHeader::from_bytes(v).is_deleted()
             });
-            btree.delete(&entry.key)?;
-            btree.insert(&entry.key, old_value)?;
-            let new_table_root = btree.root_page();
-            if new_table_root != table_root_page {
-                // putting the before-image back split the root
-                let page = table_storage.page_mut(0)?;
-                TableFileHeader::from_bytes_mut(page)?.set_root_page(new_table_root);
-            }
             if was_delete {
                 // DELETE took the row out of the header's row count
                 let page = table_storage.page_mut(0)?;
@@ -805,14 +851,6 @@ impl Database {
             }
             drop(table_storage);
 
-            let decode_row = |raw: &[u8]| -> Option<Vec<OwnedValue>> {
-                let user_data = get_user_data(raw);
-                if let Ok(record) = RecordView::new(user_data, &schema) {
-                    OwnedValue::extract_row_from_record(&record, &columns).ok()
-                } else {
-                    None
-                }
-            };
             // UPDATE put the new version's entries into the indexes: take them out again,
             // then put back the entries of the restored version (DELETE removed them)
             let new_row_values: Option<Vec<OwnedValue>> = if was_delete {
